@@ -2,7 +2,18 @@
    [run opcode argument].  Extracted to OCaml (bin/dlms_model) and also evaluated in the
    kernel by generated cases files.  Opcode names are parsed from the comments below by
    harness/lib.py — keep the format  "| <n> (* <name> *) =>". *)
-From Dlms Require Import Base CrcModel CrcSpec.
+From Dlms Require Import Base CrcModel CrcSpec FieldsModel FieldsSpec.
+
+Definition v_bools (l : list bool) : V := VList (map VBool l).
+Definition as_bools (v : V) : list bool := map as_b (as_list v).
+Definition v_sc (x : sc) : V := let '(s, a, e, k, c) := x in VList [VN s; VBool a; VBool e; VBool k; VBool c].
+Definition v_iid (x : iid) : V := let '(i, c, h) := x in VList [VN i; VBool c; VBool h].
+Definition v_liid (x : liid) : V := let '(i, p, c, s, b) := x in VList [VN i; VBool p; VBool c; VBool s; VBool b].
+Definition v_cstat (x : cstat) : V := let '(a, b, c, d, e) := x in VList [VBool a; VBool b; VBool c; VBool d; VBool e].
+Definition v_ictrl (x : ictrl) : V := let '(s, r, f) := x in VList [VN s; VN r; VBool f].
+Definition v_fmt (x : fmt) : V := let '(l, s) := x in VList [VN l; VBool s].
+Definition v_ns (l : list N) : V := VList (map VN l).
+Definition as_ns (v : V) : list N := map as_n (as_list v).
 
 Definition run (op : N) (a : V) : V :=
   match op with
@@ -14,5 +25,43 @@ Definition run (op : N) (a : V) : V :=
   (* ---- CRC-16/X-25 reference ---- *)
   | 5 (* spec_x25_fcs *) => VBytes (x25_fcs (as_bytes a))
   | 6 (* spec_x25_reg *) => VN (x25_reg (as_bytes a))
+  (* ---- bit-packed fields (C20) ---- *)
+  | 20 (* conf_to_bytes *) => v_res VBytes (conf_to_bytes (as_bools a))
+  | 21 (* conf_from_bytes *) => v_bools (conf_from_bytes (as_bytes a))
+  | 22 (* spec_conformance *) => VBytes (std_conformance (as_bools a))
+  | 23 (* spec_conformance_decode *) => v_bools (std_conformance_decode (as_n a))
+  | 24 (* sc_from_bytes *) => v_res v_sc (sc_from_bytes (as_bytes a))
+  | 25 (* sc_make_to_bytes *) =>
+      v_res VBytes (do x <- sc_make (as_n (arg 0 a)) (as_b (arg 1 a)) (as_b (arg 2 a)) (as_b (arg 3 a)) (as_b (arg 4 a));
+                    sc_to_bytes x)
+  | 26 (* iid_from_bytes *) => v_res v_iid (iid_from_bytes (as_bytes a))
+  | 27 (* iid_to_bytes *) => v_res VBytes (iid_to_bytes (as_n (arg 0 a), as_b (arg 1 a), as_b (arg 2 a)))
+  | 28 (* liid_from_bytes *) => v_res v_liid (liid_from_bytes (as_bytes a))
+  | 29 (* liid_to_bytes *) =>
+      v_res VBytes (liid_to_bytes (as_n (arg 0 a), as_b (arg 1 a), as_b (arg 2 a), as_b (arg 3 a), as_b (arg 4 a)))
+  | 30 (* cstat_from_bytes *) => v_res v_cstat (cstat_from_bytes (as_bytes a))
+  | 31 (* cstat_to_bytes *) =>
+      v_res VBytes (cstat_to_bytes (as_b (arg 0 a), as_b (arg 1 a), as_b (arg 2 a), as_b (arg 3 a), as_b (arg 4 a)))
+  | 32 (* ictrl_make_to_bytes *) =>
+      v_res VBytes (do x <- ictrl_make (as_z (arg 0 a)) (as_z (arg 1 a)) (as_b (arg 2 a)); ictrl_to_bytes x)
+  | 33 (* ictrl_from_bytes *) => v_res v_ictrl (ictrl_from_bytes (as_bytes a))
+  | 34 (* rr_make_to_bytes *) => v_res VBytes (do x <- rr_make (as_z a); rr_to_bytes x)
+  | 35 (* rr_from_bytes *) => v_res VN (rr_from_bytes (as_bytes a))
+  | 36 (* uictrl_to_bytes *) => v_res VBytes (uictrl_to_bytes (as_b a))
+  | 37 (* uictrl_from_bytes *) => v_res VBool (uictrl_from_bytes (as_bytes a))
+  | 38 (* fixed_ctrl_bytes *) => VBytes [snrm_ctrl; ua_ctrl; disc_ctrl]
+  | 39 (* fmt_make_to_bytes *) => v_res VBytes (do x <- fmt_make (as_z (arg 0 a)) (as_b (arg 1 a)); fmt_to_bytes x)
+  | 40 (* fmt_from_bytes *) => v_res v_fmt (fmt_from_bytes (as_bytes a))
+  | 41 (* obis_to_bytes *) => v_res VBytes (obis_to_bytes (as_ns a))
+  | 42 (* obis_from_bytes *) => v_res v_ns (obis_from_bytes (as_bytes a))
+  | 43 (* obis_dotted *) => VBytes (obis_dotted (as_ns a))
+  | 44 (* obis_from_dotted *) => v_res v_ns (obis_from_dotted (as_bytes a))
+  | 45 (* spec_ctrl *) =>
+      (* kind: 0 I, 1 RR, 2 SNRM, 3 UA, 4 DISC, 5 UI; args ssn rsn p *)
+      let k := as_n (arg 0 a) in let ssn := as_n (arg 1 a) in let rsn := as_n (arg 2 a) in let p := as_b (arg 3 a) in
+      VN (if k =? 0 then std_ctrl_I ssn rsn p else if k =? 1 then std_ctrl_RR rsn p else
+          if k =? 2 then std_ctrl_SNRM p else if k =? 3 then std_ctrl_UA p else
+          if k =? 4 then std_ctrl_DISC p else std_ctrl_UI p)
+  | 46 (* spec_format *) => VBytes (std_format (as_n (arg 0 a)) (as_b (arg 1 a)))
   | _ => bad_args
   end.
